@@ -153,6 +153,13 @@ def obligations(tier, seed):
         for p in ['a%', '%.', '_b', 'a.b', '%a%', '\\', '(_']:
             obs.append(_match_obl(p, 2, 2, 90))
         obs.append(_computed_pattern_obl(2, 90))
+        for p in ('a%a', 'ab%ba', '.%.', 'a%a%a', '%a%a'):
+            for L in (1, 2, 3):
+                obs.append(_match_obl(p, L, 1, 90))
+        for p in ('', '%', '%%', '_', 'a', '%_', 'a%'):
+            for L in (0, 1):
+                obs.append(_match_obl(p, L, 1, 60))
+        obs.append(_match_obl('%', 0, 2, 60))
         obs.append(_where_obl('%b', 3, 90))
         obs.append(_where_obl('[_', 3, 90))
     else:
@@ -169,6 +176,12 @@ def obligations(tier, seed):
             obs.append(_match_obl(p, 3, 2, 600))
         for L in (1, 2, 3):
             obs.append(_computed_pattern_obl(L, 600))
+        for p in ('a%a', 'ab%ba', '.%.', 'a%a%a', '%a%a', 'aa%a', 'a_%_a'):
+            for L in (0, 1, 2, 3, 4):
+                obs.append(_match_obl(p, L, 1, 600))
+        for p in patterns(2, seed + 5):
+            for L in (0, 1):
+                obs.append(_match_obl(p, L, 1, 300))
         for p in ['%b', '[_', 'a%b', '.*', '^a$', 'a|b']:
             obs.append(_where_obl(p, 4, 600))
     # names must be unique
